@@ -64,6 +64,47 @@ def body_effects(ctx, pt, f, body_nodes):
     return effs, stores
 
 
+ALLOC_CALLS = ("list", "set", "dict", "sorted", "tuple", "deque", "collections.deque")
+
+
+def is_fresh_local(ctx, f, node, recv_expr):
+    """The receiver is a local name that, at `node`, can only hold an object allocated in this very
+    invocation and not yet visible through the heap (allocation-site abstraction would otherwise merge it
+    with objects allocated by earlier invocations)."""
+    if not isinstance(recv_expr, ast.Name):
+        return False
+    name = recv_expr.id
+    cfg = ctx.cfg(f)
+    try:
+        defs = cfg.defs_reaching(node, name)
+    except AnalysisError:
+        return False
+    if not defs:
+        return False
+    for d in defs:
+        if not (isinstance(d, ast.Assign) and len(d.targets) == 1 and isinstance(d.targets[0], ast.Name)):
+            return False
+        v = d.value
+        if not (isinstance(v, (ast.List, ast.Dict, ast.Set, ast.ListComp, ast.SetComp, ast.DictComp)) or
+                (isinstance(v, ast.Call) and call_name(v) in ALLOC_CALLS)):
+            return False
+    # escapes that can execute between a definition and the effect
+    target_stmt = cfg.stmt_of(node)
+    for u in cfg.uses_of(name):
+        p = u.parent
+        harmless = (isinstance(p, ast.Attribute) and p.value is u) or isinstance(p, (ast.Compare, ast.Subscript)) or \
+            (isinstance(p, ast.Call) and call_name(p) in ("len", "sorted", "set", "list", "sum", "min", "max", "enumerate", "zip") and u in p.args) or \
+            isinstance(p, (ast.For, ast.While, ast.If, ast.comprehension, ast.UnaryOp, ast.BoolOp))
+        if harmless:
+            continue
+        us = cfg.stmt_of(u)
+        for d in defs:
+            if (us is d or cfg.path_exists(d, us, avoiding=[x for x in defs if x is not d])) and \
+                    (us is target_stmt or cfg.path_exists(us, target_stmt, avoiding=list(defs))):
+                return False
+    return True
+
+
 def chain_text(f, loop, chain, node):
     parts = ["%s:%d loop over `%s`" % (f.mod.name, loop.lineno, src(loop.iter))]
     for c in chain:
@@ -90,6 +131,8 @@ def rule_iterator_invalidation(ctx, chk, rule, modules=SOLVER_MODULES):
             for e, chain in effs:
                 if e.op == "__setitem__":
                     continue  # replacing an element does not change the structure being traversed
+                if is_fresh_local(ctx, e.func, e.node, e.recv_expr) and src(e.recv_expr) != src(loop.iter):
+                    continue  # object allocated in this invocation, not yet reachable from the heap
                 hit = objs & e.recv
                 if hit:
                     bad = True
